@@ -44,6 +44,11 @@ func (s *subscriptionMap) Unsubscribe(subscriptionID string) error {
 	if !success {
 		return fmt.Errorf("tried to unsubscribe from unknown subscription with ID '%s'", subscriptionID)
 	}
+	if unsub.hasBeenUnsubscribed {
+		// Already unsubscribed, or completed by the server: the channel has
+		// been closed, and must not be closed again.
+		return nil
+	}
 	unsub.hasBeenUnsubscribed = true
 	s.map_[subscriptionID] = unsub
 	reflect.ValueOf(s.map_[subscriptionID].interfaceChan).Close()
@@ -53,7 +58,10 @@ func (s *subscriptionMap) Unsubscribe(subscriptionID string) error {
 func (s *subscriptionMap) GetAllIDs() (subscriptionIDs []string) {
 	s.RLock()
 	defer s.RUnlock()
-	for subID := range s.map_ {
+	for subID, sub := range s.map_ {
+		if sub.hasBeenUnsubscribed {
+			continue
+		}
 		subscriptionIDs = append(subscriptionIDs, subID)
 	}
 	return subscriptionIDs
